@@ -12,7 +12,8 @@ use compio_driver::SharedFd;
 
 // ---- ghost state -----------------------------------------------------------------------------
 static mut CLOSED: u32 = 0; // how many times the "descriptor" was closed (dropped)
-static mut WAKES: u32 = 0; // how many times the closer's waker was invoked
+static mut WAKES: u32 = 0; // how many times a closer's waker was invoked (any identity)
+static mut WAKES_BY: [u32; 2] = [0, 0]; // per waker identity
 
 /// Stand-in for an owned descriptor: counts its drops.
 pub struct Fd(u32);
@@ -22,16 +23,26 @@ impl Drop for Fd {
     }
 }
 
-fn vt_clone(_: *const ()) -> RawWaker {
-    RawWaker::new(std::ptr::null(), &VT)
+fn vt_clone(p: *const ()) -> RawWaker {
+    RawWaker::new(p, &VT)
 }
-fn vt_wake(_: *const ()) {
-    unsafe { WAKES += 1 };
+fn vt_wake(p: *const ()) {
+    unsafe {
+        WAKES += 1;
+        WAKES_BY[(p as usize) & 1] += 1;
+    }
 }
 fn vt_drop(_: *const ()) {}
 static VT: RawWakerVTable = RawWakerVTable::new(vt_clone, vt_wake, vt_wake, vt_drop);
 fn waker() -> Waker {
-    unsafe { Waker::from_raw(RawWaker::new(std::ptr::null(), &VT)) }
+    waker_id(0)
+}
+/// a waker with identity 0 or 1 (different tasks / combinators polling the same close future)
+fn waker_id(id: usize) -> Waker {
+    unsafe { Waker::from_raw(RawWaker::new(id as *const (), &VT)) }
+}
+fn wakes_by(id: usize) -> u32 {
+    unsafe { WAKES_BY[id] }
 }
 
 fn closed() -> u32 {
